@@ -81,8 +81,11 @@ def build(repo, file=FILE, name=NAME):
             &&& (p.len() == 0 ==> r is None && pending(*final(self)) == p)
             &&& (p.len() > 0 ==> r is Some && r->0.number == p[0].0 && r->0.value@ == p[0].1 && pending(*final(self)) == p.skip(1))
         })''', props=PROPS)
-    u.loop(NX, 0, '''            invariant adapter_ok(*self), pending(*self) == pending(*old(self)),
+    try:
+        u.loop(NX, 0, '''            invariant adapter_ok(*self), pending(*self) == pending(*old(self)),
             decreases self.raw_iter.decrease()->0''')
+    except ExtractError:
+        pass   # no loop in next(): the contract alone decides
     u.contract(("impl MessageOption<'_>", 'cm_number'), '        ensures r == self.number', props=PROPS)
     u.contract(("impl MessageOption<'_>", 'cm_value'), '        ensures r@ == self.value@', props=PROPS)
     u.contract((P, 'cm_code'), '        ensures r == self.header.code', props=PROPS)
